@@ -62,6 +62,8 @@ def main():
         meta["detected"] = r.returncode == 1 and any(l.startswith("VIOLATION") for l in lines)
     finally:
         sh("git -C /repo checkout -- .")
+        # the run above rewrote the evidence file from a patched tree: put the committed (clean-tree) evidence back
+        sh("git -C %s checkout -- evidence/%s.json" % (VERIF, prop))
     notes = os.path.join(dst, "notes.md")
     if os.path.exists(notes):
         meta["needs_to_manifest"] = open(notes).read()[:1500]
